@@ -1160,8 +1160,24 @@ func r4C08(c *Ctx) {
 	idLookup := func(t *Term) bool {
 		return t.Op == "lookup" && len(t.Args) == 2 && t.Args[1].Op == "const" && strings.HasSuffix(t.Args[1].Name, "rollout-id")
 	}
+	// "no pods" is a reason only for kinds whose size is in the spec: for a DaemonSet GetReplicas
+	// reads status.desiredNumberScheduled, which a replace request built from a manifest leaves 0
+	specSized := func(t *Term) bool {
+		if !MCall("util.GetReplicas")(t) {
+			return false
+		}
+		call, ok := t.V.(*ssa.Call)
+		if !ok || len(call.Call.Args) == 0 {
+			return false
+		}
+		a := call.Call.Args[0]
+		if mi, ok := a.(*ssa.MakeInterface); ok {
+			a = mi.X
+		}
+		return !strings.Contains(a.Type().String(), "DaemonSet")
+	}
 	allowed := FOr(
-		FCmp("==", MCall("util.GetReplicas"), MConst("0")),
+		FCmp("==", specSized, MConst("0")),
 		FFalse(MCall("util.IsStatefulSetRollingUpdate")),
 		FNil(MCall("util.GetTemplate")),
 		FCmp("==", idLookup, idLookup),
